@@ -28,4 +28,11 @@ theorem disjoint_boundary_shape_tie : Generated.C09.disjointBoundaryShape = true
 /-- `segResult.remove` removes the sort value with the series (`C09.keepUnseen`) -/
 theorem seg_result_remove_shape_tie : Generated.C09.segResultRemoveShape = true := rfl
 
+/-- `loadSortingData` updates the window minimum and maximum independently (`C09.idxWindow`) -/
+theorem idx_window_shape_tie : Generated.C09.idxWindowShape = true := rfl
+/-- per-node limit of the trace and measure distributed plans = (limit, or the default when unset) + offset
+    (`C09.pushedLimit`), defaults 20 / 100 as used by the C09 driver -/
+theorem push_down_limit_shape_tie : (Generated.C09.pushDownLimitShape && Generated.C09.traceDefaultLimit == 20 &&
+    Generated.C09.measureDefaultLimit == 100) = true := rfl
+
 end Banyan.Tie.C09
